@@ -69,7 +69,7 @@ def main():
             rel_fns = u.get('functions')  # None = all functions of the unit count for this property
             entry = {'unit': r['unit'], 'status': r['status'], 'reason': r.get('reason'), 'verus_queries': r['obligations'], 'verified': r['discharged'],
                      'smt_ms': r['smt_ms'], 'wall_s': round(r['wall_s'], 2), 'contracted': r.get('contracted', []), 'extracted_items': r.get('items', []),
-                     'rules_fired': r.get('rules_fired'), 'assumption_scan': r.get('assumption_scan'), 'vacuity': r.get('vacuity'),
+                     'rules_fired': r.get('rules_fired'), 'assumption_scan': r.get('assumption_scan'), 'assumed_names': r.get('assumed_names'), 'vacuity': r.get('vacuity'),
                      'per_function_ms': {f['function']: f['ms'] for f in r.get('functions', [])}, 'dropped_or_rewritten': r.get('rule_notes', [])[:40]}
             vxs.append(entry)
             cov['functions_under_contract'] += r.get('contracted', [])
